@@ -282,7 +282,7 @@ def oracle(line, impl_line):
     """Closed-form statement of C19 applied to the implementation's observation."""
     mode, a = parse_case(line)
     o = parse_out(impl_line)
-    if o is None or o == [[888888]]:
+    if o is None or o == [[18446744073710440504]]:
         return "implementation crashed or panicked"
     T = set(table())
     if mode == "consts_names":
